@@ -35,6 +35,9 @@ def rule_oracle(rl, st, tr):
                 return ('skip', 'time within rounding of a window edge')
         # units the instant has been expressed in (created in the time step's unit, possibly converted by a load callback)
         tus = set(st.get('tus') or [st['tu']])
+        if min(abs(st['t'] - s), abs(st['t'] - s - d)) <= 1e-9 * max(1.0, abs(s + d)) and not sim_props.timer_hit_exact(st['t'], st['tu'], rl):
+            # an exact hit whose operands are not exactly representable in their unit (minutes, hours): rounding decides
+            return ('skip', 'time within rounding of a window edge')
         if rl.get('late'):
             # a parameter re-expressed after the rule was built: the comparison converts, so an edge hit is within rounding
             tus |= {sim.late_unit(rl, 'start'), sim.late_unit(rl, 'dur')}
